@@ -699,8 +699,11 @@ func TestPollFromHostBuiltinV1(t *testing.T) {
 			waits = nil
 			sig := &probe.Sig{FireAt: k}
 			pt := impl.NewPoint("m", map[string]string{"t": "v"}, map[string]any{"message": "m"})
-			rerr, crash := impl.RunV1(ok["main.p"], pt, sig)
 			rp := replay{(&sem.Case{Texts: set, Root: "main.p"}).Replay("a host builtin waits, asking the task whether the run was told to stop"), k}
+			// a run that never comes back is a violation of its own (a callee that was not told about the stop spins for ever)
+			evid.Watch("host-wait-v1", fmt.Sprintf("a v1 run whose signal says stop from poll %d on (a waiting host builtin sees it first)", k), rp)
+			rerr, crash := impl.RunV1(ok["main.p"], pt, sig)
+			evid.Unwatch()
 			if crash != nil && strings.Contains(crash.Value, "verif-probe-abort") {
 				rk.Fail(t, "host-wait-v1", rp, "v1: the run was still executing 100 probe calls after the signal had been observed true (poll %d, seen first by a waiting host builtin)\nscripts: %v", k, set)
 			}
